@@ -103,25 +103,13 @@ def _apply(kind, verdicts, text):
     return cur, None, ran
 
 
-def selected(a0: int, a1: int, b0: int, b1: int) -> bool:
-    """
-    With the slice's subset of rail categories enabled (list or dict form), symbolic verdicts for the input rails (a*) and output rails (b*):
-    the reply follows the documented table, disabled categories never invoke their actions, the LLM is called only by dialog rails, and
-    log.activated_rails lists exactly the rails that ran, in order, with stop on exactly the blocking one.
-    pre: 0 <= a0 <= 2 and 0 <= a1 <= 2 and 0 <= b0 <= 2 and 0 <= b1 <= 2
-    pre: N > 1 or (a1 == 0 and b1 == 0)
-    post: _
-    """
-    global LAST_INFO
-    stubs.reset()
-    rails.reset_app(APP)
-    Rec.vin = [a0, a1][:N]
-    Rec.vout = [b0, b1][:N]
+def _call_and_check(prefix_msgs):
+    """One generate call with the slice's options after the given earlier messages; returns (why, response)."""
     Rec.log = []
     LLM.reset(script=["  ask question", '  "LLM says hi"'])
     LLM.log = Rec.log
     supplied = (not D_ON) and O_ON  # the documented use: output rails on a given bot message
-    msgs = [{"role": "user", "content": "USER TEXT"}]
+    msgs = list(prefix_msgs) + [{"role": "user", "content": "USER TEXT"}]
     if supplied:
         msgs.append({"role": "assistant", "content": "SUPPLIED"})
     why = None
@@ -181,9 +169,58 @@ def selected(a0: int, a1: int, b0: int, b1: int) -> bool:
             others = [r for r in res.log.activated_rails if r.type not in ("input", "output")]
             if (not D_ON or blocked) and any(r.type in ("dialog",) for r in others):
                 why = "log lists dialog rails although they did not run"
+    return why, res
+
+
+def selected(a0: int, a1: int, b0: int, b1: int) -> bool:
+    """
+    With the slice's subset of rail categories enabled (list or dict form), symbolic verdicts for the input rails (a*) and output rails (b*):
+    the reply follows the documented table, disabled categories never invoke their actions, the LLM is called only by dialog rails, and
+    log.activated_rails lists exactly the rails that ran, in order, with stop on exactly the blocking one.
+    pre: 0 <= a0 <= 2 and 0 <= a1 <= 2 and 0 <= b0 <= 2 and 0 <= b1 <= 2
+    pre: N > 1 or (a1 == 0 and b1 == 0)
+    post: _
+    """
+    global LAST_INFO
+    stubs.reset()
+    rails.reset_app(APP)
+    Rec.vin = [a0, a1][:N]
+    Rec.vout = [b0, b1][:N]
+    why, res = _call_and_check([])
     if not rails.is_tracing():
         LAST_INFO = {"options": _options(), "verdicts": {"input": [int(x) for x in Rec.vin], "output": [int(x) for x in Rec.vout]}, "response": getattr(res, "response", None),
                      "observed": list(Rec.log), "why": why}
+    return why is None
+
+
+def selected_second_call(a0: int, a1: int, b0: int, b1: int) -> bool:
+    """
+    The same table for the SECOND call on one LLMRails instance: the first call is an ordinary turn without options (all rails accept), the second call
+    re-sends that history plus a new message with the slice's options (the events cache must not let the earlier, option-free turn decide which rails run).
+    pre: 0 <= a0 <= 2 and 0 <= a1 <= 2 and 0 <= b0 <= 2 and 0 <= b1 <= 2
+    pre: N > 1 or (a1 == 0 and b1 == 0)
+    post: _
+    """
+    global LAST_INFO
+    stubs.reset()
+    rails.reset_app(APP)
+    with rails.untraced():  # nothing symbolic in the first call
+        Rec.vin = [0] * N
+        Rec.vout = [0] * N
+        Rec.log = []
+        LLM.reset(script=["  ask question", '  "LLM says hi"'])
+        first = rails.generate(APP, [{"role": "user", "content": "USER TEXT"}])
+    Rec.vin = [a0, a1][:N]
+    Rec.vout = [b0, b1][:N]
+    why = None
+    if first != {"role": "assistant", "content": "LLM says hi"}:
+        why = "first (option-free) call: unexpected reply %r" % (first,)
+        res = None
+    else:
+        why, res = _call_and_check([{"role": "user", "content": "USER TEXT"}, first])
+    if not rails.is_tracing():
+        LAST_INFO = {"first_call": first, "options_second_call": _options(), "verdicts": {"input": [int(x) for x in Rec.vin], "output": [int(x) for x in Rec.vout]},
+                     "response": getattr(res, "response", None), "observed": list(Rec.log), "why": why}
     return why is None
 
 
@@ -220,6 +257,9 @@ SPEC = {
         {"fn": "selected", "tiers": ("quick",), "slices": [{"mask": m, "form": ("list" if m % 2 else "dict"), "n": 1} for m in range(1, 16)], "tcond": 900, "tpath": 120, "bound": "15 subsets, 1 rail per category",
          "smoke": [{"slice": {"mask": 15, "form": "dict", "n": 2}, "args": dict(a0=2, a1=0, b0=0, b1=1)}, {"slice": {"mask": 9, "form": "list", "n": 2}, "args": dict(a0=0, a1=2, b0=2, b1=2)},
                    {"slice": {"mask": 1, "form": "list", "n": 1}, "args": dict(a0=1, a1=0, b0=0, b1=0)}]},
+        {"fn": "selected_second_call", "tiers": ("quick",), "slices": [{"mask": m, "form": "list", "n": 1} for m in (1, 8, 9, 11)], "tcond": 900, "tpath": 180, "bound": "second call on one instance, 4 subsets",
+         "smoke": [{"slice": {"mask": 1, "form": "list", "n": 1}, "args": dict(a0=2, a1=0, b0=0, b1=0)}]},
+        {"fn": "selected_second_call", "tiers": ("thorough",), "slices": [{"mask": m, "form": "dict", "n": 1} for m in range(1, 16)], "tcond": 1800, "tpath": 180, "bound": "second call on one instance, all subsets"},
         {"fn": "selected", "tiers": ("thorough",), "slices": [{"mask": m, "form": f, "n": 2} for m in range(1, 16) for f in ("list", "dict")], "tcond": 3000, "tpath": 180, "bound": "15 subsets x 2 forms, 2 rails per category"},
         {"fn": "options_twin", "expect": "counterexample", "slices": [{"mask": 9, "form": "list", "n": 1}], "tcond": 600, "tpath": 120, "bound": "twin"},
     ],
